@@ -37,6 +37,53 @@ LOCS = {
 }
 
 
+def _module_constant(module, name, default):
+    try:
+        import importlib
+        return float(getattr(importlib.import_module("flexstack.facilities.local_dynamic_map." + module), name))
+    except Exception:  # noqa: BLE001
+        return default
+
+
+TRASH_INTERVAL = _module_constant("ldm_maintenance_reactive", "TRASH_COLLECTION_INTERVAL", 1.0)
+ATTEND_INTERVAL = _module_constant("ldm_service_reactive", "ATTEND_SUBSCRIPTIONS_INTERVAL", 0.5)
+
+
+def bounded_digest(obj, depth=6, _seen=None):
+    """Deterministic, bounded structural digest for fall-back projections: never follows callables (a subscription
+    callback leads into the harness world), harness objects (module mc.*), worlds, loggers, locks or modules; cuts at
+    `depth`; dict/set members are sorted by their own digest."""
+    import enum
+    import logging
+    import types
+    if obj is None or isinstance(obj, (bool, int, float, str, bytes)):
+        return obj
+    if isinstance(obj, enum.Enum):
+        return ("enum", type(obj).__name__, obj.name)
+    mod = getattr(type(obj), "__module__", "") or ""
+    if (isinstance(obj, (World, logging.Logger, logging.Handler, types.ModuleType, type)) or callable(obj)
+            or mod.startswith("mc.") or mod in ("_thread", "threading")):
+        return ("skip", type(obj).__name__)
+    if depth <= 0:
+        return ("cut", type(obj).__name__)
+    _seen = _seen or ()
+    if id(obj) in _seen:
+        return ("cycle", type(obj).__name__)
+    _seen = _seen + (id(obj),)
+    if isinstance(obj, (list, tuple)):
+        return tuple(bounded_digest(x, depth - 1, _seen) for x in obj)
+    if isinstance(obj, (set, frozenset)):
+        return ("set",) + tuple(sorted(repr(bounded_digest(x, depth - 1, _seen)) for x in obj))
+    if isinstance(obj, dict):
+        return ("dict",) + tuple(sorted((repr(bounded_digest(k, depth - 1, _seen)), repr(bounded_digest(v, depth - 1, _seen)))
+                                        for k, v in obj.items()))
+    d = getattr(obj, "__dict__", None)
+    if d is None:
+        slots = getattr(type(obj), "__slots__", ()) or ()
+        d = {k: getattr(obj, k, None) for k in slots}
+    return (type(obj).__name__,) + tuple((k, bounded_digest(v, depth - 1, _seen)) for k, v in sorted(d.items()))
+
+
 def its_ms(unix_s: float) -> int:
     """ITS timestamp (ms since 2004-01-01 incl. leap seconds) of a unix time truncated to whole seconds."""
     return (int(unix_s) - ITS_EPOCH + LEAP) * 1000
@@ -175,9 +222,9 @@ class AttendProbe:
         self.service = service
         self.count = 0
 
-    def __call__(self):
+    def __call__(self, *a, **k):
         self.count += 1
-        return type(self.service).attend_subscriptions(self.service)
+        return type(self.service).attend_subscriptions(self.service, *a, **k)
 
 
 class TrashProbe:
@@ -187,9 +234,9 @@ class TrashProbe:
         self.maintenance = maintenance
         self.count = 0
 
-    def __call__(self):
+    def __call__(self, *a, **k):
         self.count += 1
-        return type(self.maintenance).collect_trash(self.maintenance)
+        return type(self.maintenance).collect_trash(self.maintenance, *a, **k)
 
 
 class Recorder:
@@ -212,6 +259,7 @@ class LdmWorld(World):
         self.calls = []          # subscription callback log
         self.n_subs = 0
         self.attend_probe = None
+        self.reactive_attended = self.reactive_collected = None
         with self:
             self.area = C.Location.initializer(latitude=LDM_LAT, longitude=LDM_LON, altitude_value=LDM_ALT)
             if database == "Dictionary":
@@ -221,21 +269,42 @@ class LdmWorld(World):
                 self.db_file = os.path.join(db_dir, db_name or "ldm.json")
                 maint = LDMMaintenanceReactive(self.area, db)
                 self.ldm = LDMFacility(maint, LDMServiceReactive(maint))
-        if probe_attend:
-            self.attend_probe = AttendProbe(self.ldm.ldm_service)
-            self.ldm.ldm_service.attend_subscriptions = self.attend_probe
+        # time of the last reactive attendance / collection, as *observed* through the probes (both reactive timers start
+        # when the LDM is built); used by the canonical projections instead of the implementation's private timestamps
+        self.last_reactive_attend = self.now
+        self.last_reactive_trash = self.now
         self.trash_probe = None
+        if probe_attend:
+            self.attend_probe = self._install(self.ldm.ldm_service, "attend_subscriptions", AttendProbe)
         if probe_trash:
-            self.trash_probe = TrashProbe(self.ldm.ldm_maintenance)
-            self.ldm.ldm_maintenance.collect_trash = self.trash_probe
+            self.trash_probe = self._install(self.ldm.ldm_maintenance, "collect_trash", TrashProbe)
+
+    @staticmethod
+    def _install(target, name, probe_cls):
+        """Shadow a public method by a counting wrapper on the instance; None if that is not possible (method renamed,
+        __slots__ ...) - the checks then work without knowing when the routine ran."""
+        try:
+            if not callable(getattr(type(target), name, None)):
+                return None
+            probe = probe_cls(target)
+            setattr(target, name, probe)
+            return probe if getattr(target, name) is probe else None
+        except Exception:  # noqa: BLE001
+            return None
 
     # -- helpers ----------------------------------------------------------------------------------------------
     def close(self):
         if self.database != "Dictionary":
             try:
                 self.ldm.ldm_maintenance.data_containers.database.close()
-            except Exception:  # noqa: BLE001
-                pass
+            except Exception:  # noqa: BLE001 - handle kept under another name: close whatever tinydb handle the back-end holds
+                try:
+                    import tinydb
+                    for v in vars(self.ldm.ldm_maintenance.data_containers).values():
+                        if isinstance(v, tinydb.TinyDB):
+                            v.close()
+                except Exception:  # noqa: BLE001
+                    pass
             try:
                 os.remove(self.db_file)
             except OSError:
@@ -271,7 +340,15 @@ class LdmWorld(World):
     def add(self, app, msg, validity, loc="near", ts=None):
         ts = its_ms(self.now) if ts is None else ts
         req = C.AddDataProviderReq(app, C.TimestampIts(ts), self.location(loc), msg, C.TimeValidity(validity))
+        a0 = self.attend_probe.count if self.attend_probe else None
+        t0 = self.trash_probe.count if self.trash_probe else None
         r = self._do(self.ldm.if_ldm_3.add_provider_data, req)
+        self.reactive_attended = None if a0 is None else self.attend_probe.count > a0
+        self.reactive_collected = None if t0 is None else self.trash_probe.count > t0
+        if self.reactive_attended:
+            self.last_reactive_attend = self.now
+        if self.reactive_collected:
+            self.last_reactive_trash = self.now
         return r if is_exc(r) else r.data_object_id
 
     def update(self, app, oid, msg, loc="near"):
@@ -308,11 +385,39 @@ class LdmWorld(World):
         return r if is_exc(r) else int(r.result)
 
     # -- maintenance / attendance (what the periodic threads do) -------------------------------------------------
+    def can(self, what):
+        """Is the public routine available? ('maintenance' = LDMMaintenance.collect_trash, 'attend' = LDMService.attend_subscriptions)"""
+        obj, name = {"maintenance": (self.ldm.ldm_maintenance, "collect_trash"), "attend": (self.ldm.ldm_service, "attend_subscriptions")}[what]
+        return callable(getattr(obj, name, None))
+
     def maintenance(self):
-        return self._do(self.ldm.ldm_maintenance.collect_trash)
+        return self._do(lambda: self.ldm.ldm_maintenance.collect_trash())
 
     def attend(self):
-        return self._do(self.ldm.ldm_service.attend_subscriptions)
+        return self._do(lambda: self.ldm.ldm_service.attend_subscriptions())
+
+    def stored(self):
+        """All stored records through the maintenance component's public accessor (None if unavailable)."""
+        try:
+            with self:
+                return tuple(self.ldm.ldm_maintenance.get_all_data_containers())
+        except Exception:  # noqa: BLE001
+            return None
+
+    def subscription_table(self):
+        """[(callback key, application id, request digest, last notification ITS ms | None)] from the documented attributes
+        LDMService.subscriptions / last_checked_subscriptions_time; None if they are not available."""
+        try:
+            svc = self.ldm.ldm_service
+            out = []
+            for sub in list(svc.subscriptions):
+                rq = sub.subscription_request
+                last = svc.last_checked_subscriptions_time.get(sub)
+                out.append((getattr(sub.callback, "key", None), rq.application_id, repr(bounded_digest(rq)),
+                            None if last is None else int(last.timestamp_its)))
+            return out
+        except Exception:  # noqa: BLE001
+            return None
 
     # -- auxiliary observations ------------------------------------------------------------------------------
     def registries(self):
